@@ -117,10 +117,10 @@ Proof. intros. unfold token_ids. apply isort_perm_eq. assumption. Qed.
 
 (** C10 + C11: the token numbering does not depend on that order either *)
 Theorem terminals_lex_order_independent :
-  forall (eqb : A -> A -> bool) (INVALID EOFSYM : A) prods order order',
+  forall (eqb : A -> A -> bool) (INVALID EOFSYM EMPTY : A) prods order order',
   Permutation order order' ->
-  terminals A eqb INVALID EOFSYM prods (token_ids A leb order)
-  = terminals A eqb INVALID EOFSYM prods (token_ids A leb order').
+  terminals A eqb INVALID EOFSYM EMPTY prods (token_ids A leb order)
+  = terminals A eqb INVALID EOFSYM EMPTY prods (token_ids A leb order').
 Proof. intros. rewrite (token_ids_order_independent order order'); [reflexivity|assumption]. Qed.
 
 End SortProofs.
